@@ -61,6 +61,34 @@ enum Act {
 struct C02 {
     keys: Vec<(&'static str, &'static str)>,
     max_adv: u8,
+    /// size of the one-off large batch tried (on a snapshot) from every state without time passing
+    bulk: usize,
+}
+
+/// tail shared by the ids of the alphabet's keys: one occurrence of each customary separator and
+/// more than 32 bytes in all, so that every way of keying the status by a lossy or ambiguous
+/// combination of (chain, id) has a colliding sibling among `siblings()`
+const TAIL: &str = "_d-e:f/g.h|i j,k#l-0123456789abcdef0123";
+const K0: (&str, &str) = ("ab", "c_d-e:f/g.h|i j,k#l-0123456789abcdef0123");
+const K1: (&str, &str) = ("a", "bc_d-e:f/g.h|i j,k#l-0123456789abcdef0123");
+const K2: (&str, &str) = ("aB", "c_d-e:f/g.h|i j,k#l-0123456789abcdef0123 ");
+
+/// keys that are never approved but would share key 0's status slot under a keying scheme that
+/// joins chain and id with a separator, truncates the id, or looks at a prefix only
+fn siblings() -> Vec<(String, String)> {
+    let (chain, id) = K0;
+    let mut v = vec![];
+    for (pos, ch) in id.char_indices() {
+        if "_-:/.| ,#".contains(ch) {
+            v.push((format!("{}{}{}", chain, ch, &id[..pos]), id[pos + 1..].to_string()));
+        }
+    }
+    // same first 32 bytes / same length and last byte differs / one byte longer
+    v.push((chain.to_string(), id[..32].to_string()));
+    v.push((chain.to_string(), format!("{}4", &id[..id.len() - 1])));
+    v.push((chain.to_string(), format!("{}x", id)));
+    debug_assert!(id.ends_with(TAIL));
+    v
 }
 
 const CONTENTS: [Content; 5] = [
@@ -158,8 +186,9 @@ impl Scenario for C02 {
         }
         if m.advances < self.max_adv {
             v.push(Act::Advance(20));
-            // ~64 days: longer than any TTL a contract extends to, shorter than the minimum persistent TTL
-            v.push(Act::Advance(1_100_000));
+            // ~405 days: longer than the maximum entry TTL, so every temporary entry is gone by then, while
+            // the world's keeper (World::set_seq) keeps instance / persistent entries alive
+            v.push(Act::Advance(7_000_000));
         }
         v
     }
@@ -315,6 +344,74 @@ impl Scenario for C02 {
                 });
             }
         }
+        // keys that were never approved have no status, whatever happened to key 0
+        for (chain, id) in siblings() {
+            let ex = w.query(&ctx.gw, "is_message_executed", &[to_val(env, &sstr(&chain)), to_val(env, &sstr(&id))]);
+            out.expect(ex == Some(ScVal::Bool(false)), "probe.sibling-executed", || {
+                format!("never-approved key {:?} reports executed = {:?} (key 0 is {:?})", (&chain, &id), ex, m.status[0])
+            });
+            let c = CONTENTS[0];
+            let got = w.query(
+                &ctx.gw,
+                "is_message_approved",
+                &[to_val(env, &sstr(&chain)), to_val(env, &sstr(&id)), to_val(env, &sstr(src_str(c.src))), ctx.dests[0].to_val(), to_val(env, &sbytes(&hash_of(c.hash)))],
+            );
+            out.expect(got == Some(ScVal::Bool(false)), "probe.sibling-approved", || {
+                format!("never-approved key {:?} reports approved = {:?}", (&chain, &id), got)
+            });
+        }
+        // one large batch (tried on a snapshot): every entry is approved and announced, wherever it
+        // sits; the alphabet's keys ride along at the front, in the middle and at the end
+        if self.bulk > 0 && m.advances == 0 && m.rotations == 0 {
+            let snap = w.snap();
+            let mut tagged: Vec<(Option<usize>, ScVal)> = (0..self.bulk)
+                .map(|i| {
+                    (
+                        None,
+                        msg_scval(
+                            &Msg { chain: "bulk".into(), id: format!("b{}", i), src: "s".into(), dest: 0, payload_hash: H1 },
+                            &w.sc_addr(&ctx.dests[0]),
+                        ),
+                    )
+                })
+                .collect();
+            tagged.insert(self.bulk / 2, (Some(1), self.msg(ctx, 1, CONTENTS[0])));
+            tagged.insert(0, (Some(0), self.msg(ctx, 0, CONTENTS[0])));
+            tagged.push((Some(2), self.msg(ctx, 2, CONTENTS[0])));
+            let msgs: Vec<ScVal> = tagged.iter().map(|(_, v)| v.clone()).collect();
+            let call = approve(w, &ctx.gw, &ctx.keys, &ctx.set, &DOMAIN, &msgs);
+            out.expect(call.ok, "bulk.rejected", || format!("honest batch of {} rejected: {}", msgs.len(), call.err));
+            if call.ok {
+                let mut expected = vec![];
+                for (rider, msg) in tagged.iter() {
+                    if rider.map(|k| m.status[k] == Status::NotApproved).unwrap_or(true) {
+                        expected.push(EvPat { contract: w.sc_addr(&ctx.gw), name: "message_approved", must: vec![msg.clone()] });
+                    }
+                }
+                let r = match_events(&call.events, &expected, &["message_approved", "message_executed"]);
+                out.expect(r.is_ok(), "bulk.events", || truncate(&r.unwrap_err(), 400));
+                for i in 0..self.bulk {
+                    let got = w.query(
+                        &ctx.gw,
+                        "is_message_approved",
+                        &[to_val(env, &sstr("bulk")), to_val(env, &sstr(&format!("b{}", i))), to_val(env, &sstr("s")), ctx.dests[0].to_val(), to_val(env, &sbytes(&H1))],
+                    );
+                    out.expect(got == Some(ScVal::Bool(true)), "bulk.entry-not-approved", || format!("entry {} of a batch of {}: {:?}", i, msgs.len(), got));
+                }
+                for k in 0..self.keys.len().min(3) {
+                    let (chain, id) = self.keys[k];
+                    let c = CONTENTS[0];
+                    let got = w.query(
+                        &ctx.gw,
+                        "is_message_approved",
+                        &[to_val(env, &sstr(chain)), to_val(env, &sstr(id)), to_val(env, &sstr(src_str(c.src))), ctx.dests[0].to_val(), to_val(env, &sbytes(&hash_of(c.hash)))],
+                    );
+                    let want = m.status[k] == Status::NotApproved || m.status[k] == Status::Approved(c);
+                    out.expect(got == Some(ScVal::Bool(want)), "bulk.rider", || format!("key {} after the large batch: {:?}, status before {:?}", k, got, m.status[k]));
+                }
+            }
+            w.restore(&snap);
+        }
     }
 
     fn must_succeed_kinds(&self) -> Vec<&'static str> {
@@ -325,14 +422,14 @@ impl Scenario for C02 {
 fn main() {
     main_for(|tier| {
         let s = if tier == "quick" {
-            C02 { keys: vec![("ab", "c"), ("a", "bc")], max_adv: 1 }
+            C02 { keys: vec![K0, K1, K2], max_adv: 1, bulk: 100 }
         } else {
-            C02 { keys: vec![("ab", "c"), ("a", "bc"), ("ab", "d")], max_adv: 2 }
+            C02 { keys: vec![K0, K1, K2], max_adv: 2, bulk: 300 }
         };
         let mut o = Opts::new(tier, if tier == "quick" { 12 } else { 16 });
         o.min_depth = 4;
         o.xcheck = tier == "thorough";
-        o.rule = "all sequences over {approve single x4 contents per key, 4 batches (same-key/different-content, identical twins, two keys, three entries), a signer rotation, validate_message x {3 callers (two principals, one calling contract), 2 source addresses differing only in letter case, 2 payload hashes, authorised or not} per key, advance 20 ledgers (bounded)}; ids (ab,c)/(a,bc) differ only in the split; explored to fixpoint of the finite status graph; after every new state is_message_approved for all key x content pairs and is_message_executed for all keys are compared with the model".into();
+        o.rule = "all sequences over {approve single x4 contents per key, 4 batches (same-key/different-content, identical twins, two keys, three entries), a signer rotation, validate_message x {3 callers (two principals, one calling contract), 2 source addresses differing only in letter case, 2 payload hashes, authorised or not} per key, advance 20 ledgers (bounded)}; keys 0/1 differ only in where chain ends and id begins, key 2 from key 0 only in letter case and a trailing blank; ids are 40 bytes with every customary separator; 12 never-approved sibling keys (separator shifted into the chain, same 32-byte prefix, same length) must never show a status; from every state without time passing a batch of 100 (quick) / 300 (thorough) fresh messages plus the three keys is approved on a snapshot and every entry checked; explored to fixpoint of the finite status graph; after every new state is_message_approved for all key x content pairs and is_message_executed for all keys are compared with the model".into();
         (s, o)
     });
 }
